@@ -53,6 +53,15 @@ at the top-level directory.
  * </pre>
  */
 
+#ifdef SLU_VERIF
+/* verification hook H2 (incomplete LU): reports the candidates seen and the decision taken */
+extern void (*slu_verif_ilu_pivot_hook)(int phase, int dtype, int jcol, double u, int usepr,
+					int pivrow, int diagind, int milu, const void *drop_sum,
+					double fill_tol, int ncand, const int_t *rows,
+					const void *vals, const int *marker, const int *swap,
+					int n, int info);
+#endif
+
 int
 ilu_cpivotL(
 	const int  jcol,     /* in */
@@ -111,6 +120,13 @@ ilu_cpivotL(
     lu_col_ptr = &lusup[xlusup[jcol]];	/* start of jcol in the supernode */
     lsub_ptr   = &lsub[lptr];	/* start of row indices of the supernode */
 
+#ifdef SLU_VERIF
+    if ( slu_verif_ilu_pivot_hook )
+	slu_verif_ilu_pivot_hook(0, SLU_C, jcol, u, *usepr, *pivrow, diagind, (int) milu, &drop_sum,
+				 (double) fill_tol, nsupr - nsupc, &lsub_ptr[nsupc],
+				 &lu_col_ptr[nsupc], marker, swap, n, 0);
+#endif
+
     /* Determine the largest abs numerical value for partial pivoting;
        Also search for user-specified pivot, and diagonal element. */
     pivmax = -1.0;
@@ -151,6 +167,12 @@ ilu_cpivotL(
 	fflush(stderr);
 	exit(1); */
 	*usepr = 0;
+#ifdef SLU_VERIF
+	if ( slu_verif_ilu_pivot_hook )
+	    slu_verif_ilu_pivot_hook(1, SLU_C, jcol, u, *usepr, *pivrow, diagind, (int) milu, &drop_sum,
+				     (double) fill_tol, nsupr - nsupc, &lsub_ptr[nsupc],
+				     &lu_col_ptr[nsupc], marker, swap, n, jcol+1);
+#endif
 	return (jcol+1);
     }
     if ( pivmax == 0.0 ) {
@@ -168,6 +190,12 @@ ilu_cpivotL(
 		fflush(stderr);
 		exit(1); */
    	        *usepr = 0;
+#ifdef SLU_VERIF
+		if ( slu_verif_ilu_pivot_hook )
+		    slu_verif_ilu_pivot_hook(1, SLU_C, jcol, u, *usepr, *pivrow, diagind, (int) milu, &drop_sum,
+					     (double) fill_tol, nsupr - nsupc, &lsub_ptr[nsupc],
+					     &lu_col_ptr[nsupc], marker, swap, n, jcol+1);
+#endif
 	        return (jcol+1);
 	    }
 
@@ -285,5 +313,11 @@ ilu_cpivotL(
     for (k = nsupc+1; k < nsupr; k++) 
 	cc_mult(&lu_col_ptr[k], &lu_col_ptr[k], &temp);
 
+#ifdef SLU_VERIF
+    if ( slu_verif_ilu_pivot_hook )
+        slu_verif_ilu_pivot_hook(1, SLU_C, jcol, u, *usepr, *pivrow, diagind, (int) milu, &drop_sum,
+    			     (double) fill_tol, nsupr - nsupc, &lsub_ptr[nsupc],
+    			     &lu_col_ptr[nsupc], marker, swap, n, info);
+#endif
     return info;
 }
